@@ -11,7 +11,7 @@
      AUTO with limit <> 0: count n + p n <= limit for every node that received >= 1. *)
 From Coq Require Import String ZArith List Permutation Sorted.
 From Verif Require Import Base.GoInt Base.GoSort Base.GoSortSpec Strategy.Model Strategy.ProofsBase
-  Strategy.ProofsSort Strategy.Proofs Strategy.ProofsOk Strategy.ProofsOld Strategy.Statements Strategy.Glue Strategy.ProofsGlue Strategy.ProofsProj.
+  Strategy.ProofsSort Strategy.Proofs Strategy.ProofsOk Strategy.ProofsOld Strategy.Statements Strategy.Glue Strategy.ProofsGlue Strategy.ProofsProj Strategy.ModelW Strategy.ProofsW Strategy.ProofsW2.
 Local Open Scope Z_scope.
 
 (* full statement, all five strategies, all tables / counts / limits / totals *)
@@ -111,3 +111,27 @@ Theorem C01_drained_projection_invariant : forall infos s1 s2 need total,
   Permutation (map (proj Drained p1) infos) (map (proj Drained p2) infos).
 Proof. exact drained_proj_invariant. Qed.
 Print Assumptions C01_drained_projection_invariant.
+
+(* ---- int64 ---- the twin model with every + and - wrapped to int64 (the one the
+   correspondence check runs) equals the Z model on the domain; so the theorem also
+   holds for the int64 twin there, and the domain conditions are needed *)
+Theorem C01_int64_twin_equal : forall s need limit infos total,
+  NoDup (names infos) -> dom64 s need limit infos ->
+  deploy_fullW s need limit infos total = deploy_full s need limit infos total.
+Proof. exact deploy_fullW_eq. Qed.
+Print Assumptions C01_int64_twin_equal.
+
+Theorem C01_plans_sound_int64 : forall s need limit infos total,
+  NoDup (names infos) -> dom64 s need limit infos ->
+  forall p, is_plan (deployW s need limit infos total) p -> C01_spec s need limit infos p.
+Proof. exact C01_sound_W. Qed.
+Print Assumptions C01_plans_sound_int64.
+
+Theorem C01_int64_domain_needed :
+  ((exists p, deployW Fill max_int 0 w_fill_wrap max_int = AlreadyFilled p /\ plan_sum p <> 0) /\
+   (exists p, deploy Fill max_int 0 w_fill_wrap max_int = Ok p) /\
+   int64_domain Fill max_int 0 w_fill_wrap = false) /\
+  (deployW Auto 4 0 w_auto_wrap 10 <> deploy Auto 4 0 w_auto_wrap 10 /\
+   int64_domain Auto 4 0 w_auto_wrap = false).
+Proof. exact (conj fill_todeploy_wraps auto_count_wraps). Qed.
+Print Assumptions C01_int64_domain_needed.
